@@ -80,6 +80,23 @@ def run(res, ctx):
                     if d is not None:
                         res.violation("failing-input", "security %s of input %s changes when the other input's rows are added: %s" % (sname, tag, d),
                                       {"input_A": x["hc"], "input_B": y["hc"], "input_interleaved": z["hc"], "security": sname})
+            # the aggregate of every run is the sum of that run's per-security table totals
+            # (a security that failed contributes its table total, i.e. nothing)
+            for run_, tag in ((x, "A"), (y, "B"), (z, "interleaved")):
+                full = run_["raw"].get("render_full", {})
+                ag = agg_of(run_["raw"])
+                if ag is None or "secs" not in full:
+                    continue
+                tot = Fraction(0)
+                for sname, t in full["secs"].items():
+                    vals = t["footer"][9].split("\n")
+                    m = re.match(r"^\s*([+-]?)\$(-?\d+(?:\.\d+)?)", vals[0])
+                    if m:
+                        v = Fraction(m.group(2))
+                        tot += -v if m.group(1) == "-" else v
+                if abs(ag.get("Since inception", Fraction(0)) - tot) > Fraction(1, 10 ** 9):
+                    res.violation("failing-input", "input %s: aggregate 'Since inception' %s is not the sum of the securities' own table totals %s" % (tag, ag.get("Since inception"), tot),
+                                  {"input": run_["hc"]})
             # aggregate gains add up
             ga, gb, gi = agg_of(x["raw"]), agg_of(y["raw"]), agg_of(z["raw"])
             if ga is not None and gb is not None and gi is not None:
